@@ -412,6 +412,7 @@ theorem dstep_links (ds : DSt) (op : DOp) (hl : DLinks ds) (hs : DOpOK op) : DLi
     · split
       · exact hl
       · exact removePropAt_links _ _ _ hl
+  | sharePropObj path src i => exact absurd hs (by simp [DOpOK])
 
 instance (op : DOp) : Decidable (DOpOK op) := by cases op <;> unfold DOpOK <;> exact inferInstance
 
@@ -426,6 +427,10 @@ theorem dstep_st (ds : DSt) (op : DOp) (h : ∀ o, op ≠ .sheet o) : (dstep ds 
     simp only [dstep]; split; rfl; split; rfl; split; rfl; split; rfl; split <;> rfl
   | setPropObj path name => simp only [dstep]; split; rfl; split; rfl; split <;> rfl
   | removeProp path name => simp only [dstep]; split; rfl; split <;> rfl
+  | sharePropObj path src i =>
+    simp only [dstep]; split
+    · split; rfl; split; rfl; split <;> rfl
+    · rfl
 
 theorem dstep_sheet_st (ds : DSt) (op : Op) : (dstep ds (.sheet op)).1.st = (step ds.st op).1 := by
   cases op with
